@@ -34,6 +34,9 @@ func ruleRetNil(c *Ctx, rule string, ro *Roots) {
 			if k, ok := e.Results[1].(*ssa.Const); ok && constStr(k) == "true" {
 				stopTrue = true
 			}
+			if e.Canon[1] == "true" { // constant through an inlined helper's results
+				stopTrue = true
+			}
 			ns, _ := e.Ex.NilState(e.St, e.Ret.Results[0])
 			switch {
 			case ns == 1 && stopTrue:
@@ -45,7 +48,7 @@ func ruleRetNil(c *Ctx, rule string, ro *Roots) {
 				o.Verdict, o.Detail = Discharged, "stop with a response"
 			default:
 				// continue: the response must be the incoming resp or a non-nil value
-				if p, ok := e.Results[0].(*ssa.Parameter); ok && p == fn.Params[len(fn.Params)-1] {
+				if p, ok := e.Results[0].(*ssa.Parameter); (ok && p == fn.Params[len(fn.Params)-1]) || e.Canon[0] == fmt.Sprintf("$%d", len(fn.Params)-1) {
 					o.Verdict, o.Detail = Discharged, "passes the incoming response on"
 				} else if ns == 0 {
 					o.Verdict, o.Detail = Discharged, "continues with a non-nil response"
